@@ -4,6 +4,9 @@ import (
 	"fmt"
 	"go/ast"
 	"go/token"
+	"os"
+	"path/filepath"
+	"sort"
 	"strconv"
 	"strings"
 )
@@ -144,7 +147,99 @@ func init() {
 		l.Def("readsThroughReader", "List (String × Nat)", "["+strings.Join(rows, ", ")+"]")
 		l.Raw("/-- reads of the committed state that bypass tx.r (directly on l.ldb or tx.snap) -/")
 		l.Def("readsBypassingReader", "Nat", fmt.Sprint(bypass))
+		// --- round 4: BucketMeta / FetchBucket cache, iterator call sites ---------------------------
+		// (c) FetchBucket revalidates a cache hit of a write transaction against the batch (repair D44),
+		//     and a BucketMeta is the split path: Paths = Split(path, sep), Depth = Atoi(paths[0]), Name = paths[Depth()]
+		srcOf := func(recv, name string) string {
+			if fd := c.Func(rel, recv, name); fd != nil && fd.Body != nil {
+				return strings.Join(strings.Fields(c.Src(fd.Body)), " ")
+			}
+			return ""
+		}
+		fb := srcOf("transaction", "FetchBucket")
+		revalidates := strings.Contains(fb, "tx.cache[meta]") && strings.Contains(fb, "!tx.readOnly") &&
+			strings.Contains(fb, "tx.b.Get(") && strings.Contains(fb, "delete(tx.cache, meta)") &&
+			strings.Index(fb, "tx.b.Get(") < strings.Index(fb, "joinBucketPath(meta.Paths()...)")
+		metaShape := strings.Contains(srcOf("levelBucket", "GetBucketMeta"), "strings.Split(b.path, bucketPathSep)") &&
+			strings.Contains(srcOf("levelBucketMeta", "Depth"), "strconv.Atoi(m.paths[0])") &&
+			strings.Contains(srcOf("levelBucketMeta", "Name"), "m.paths[m.Depth()]") &&
+			strings.Contains(srcOf("levelBucketMeta", "Paths"), "return m.paths")
+		// (d) every NewIterator call of the wallet (outside the db package and tests): file:function
+		var sites []string
+		filepath.Walk(filepath.Join(c.Repo, "masswallet"), func(p string, info os.FileInfo, err error) error {
+			if err != nil || info.IsDir() || !strings.HasSuffix(p, ".go") || strings.HasSuffix(p, "_test.go") {
+				return nil
+			}
+			r, _ := filepath.Rel(c.Repo, p)
+			if strings.HasPrefix(r, "masswallet/db/") {
+				return nil
+			}
+			f := c.File(r)
+			if f == nil {
+				return nil
+			}
+			for _, d := range f.Decls {
+				fd, ok := d.(*ast.FuncDecl)
+				if !ok || fd.Body == nil {
+					continue
+				}
+				ast.Inspect(fd.Body, func(x ast.Node) bool {
+					if ce, ok := x.(*ast.CallExpr); ok {
+						if se, ok := ce.Fun.(*ast.SelectorExpr); ok && se.Sel.Name == "NewIterator" {
+							sites = append(sites, r+":"+fd.Name.Name)
+						}
+					}
+					return true
+				})
+			}
+			return nil
+		})
+		sort.Strings(sites)
+		// the three of them that run inside WRITE transactions, and the order that makes the first one
+		// start on an empty batch: RemoveRelevantTx calls removeRelevantUnminedCredit before any write,
+		// asyncRemove's Update closure calls RemoveRelevantTx first
+		rrt := ""
+		if fd := c.Func("masswallet/txmgr/txstore.go", "TxStore", "RemoveRelevantTx"); fd != nil {
+			rrt = strings.Join(strings.Fields(c.Src(fd.Body)), " ")
+		}
+		iUnm := strings.Index(rrt, "removeRelevantUnminedCredit(")
+		iCred := strings.Index(rrt, "removeRelevantCredit(")
+		firstWrite := len(rrt)
+		for _, w := range []string{".Put(", ".Delete(", ".Clear(", "deleteRaw", "putRaw", "removeUnminedInputsOf(", "DeleteBucket("} {
+			if i := strings.Index(rrt, w); i >= 0 && i < firstWrite {
+				firstWrite = i
+			}
+		}
+		removalOrder := iUnm >= 0 && iCred > iUnm && iUnm < firstWrite
+		wantSites := []string{"masswallet/txmgr/syncstore.go:", "masswallet/txmgr/utxostore.go:ExistCreditFromTx",
+			"masswallet/txmgr/utxostore.go:removeRelevantCredit", "masswallet/txmgr/utxostore.go:removeRelevantUnminedCredit"}
+		sitesOK := len(sites) == 6
+		for _, w := range wantSites {
+			found := false
+			for _, st := range sites {
+				if strings.HasPrefix(st, w) {
+					found = true
+				}
+			}
+			sitesOK = sitesOK && found
+		}
+		var siteRows []string
+		for _, st := range sites {
+			siteRows = append(siteRows, leanStr(st))
+		}
+		l.Raw("/-- FetchBucket looks a cached bucket up again when the write transaction's batch holds a pending delete of its index key (repair D44) -/")
+		l.Def("fetchRevalidatesCache", "Bool", fmt.Sprint(revalidates))
+		l.Raw("/-- GetBucketMeta = Split(path), Depth = Atoi(paths[0]), Name = paths[Depth()] -/")
+		l.Def("metaIsSplitPath", "Bool", fmt.Sprint(metaShape))
+		l.Raw("/-- every NewIterator call site of the wallet outside masswallet/db and tests (file:function) -/")
+		l.Def("iteratorCallSites", "List String", "["+strings.Join(siteRows, ", ")+"]")
+		l.Raw("/-- RemoveRelevantTx iterates the unmined credits before it writes anything, the credits afterwards -/")
+		l.Def("removalIteratesBeforeWriting", "Bool", fmt.Sprint(removalOrder))
 		l.Write(c, "Kv.lean")
+		c.check("kv.fetchRevalidatesCache", revalidates && metaShape,
+			fmt.Sprintf("FetchBucket no longer has the shape the model follows (cache hit of a write transaction revalidated against the batch before the lookup: %v; BucketMeta = split path: %v)", revalidates, metaShape))
+		c.check("kv.iteratorCallSites", sitesOK && removalOrder,
+			fmt.Sprintf("the NewIterator call sites of the wallet changed (%v) or RemoveRelevantTx no longer iterates the unmined credits before its first write (%v): re-check the RangeUntouched argument of notes/C11.md round 4", sites, removalOrder))
 		c.check("kv.readTxSnapshot", snapshotTaken && writerLive && released,
 			fmt.Sprintf("the model's read transaction reads a snapshot taken at BeginReadTx, the code no longer does (GetSnapshot result is the reader of BeginReadTx: %v, BeginTx reads l.ldb: %v, Rollback releases tx.snap: %v)", snapshotTaken, writerLive, released))
 		c.check("kv.readsThroughReader", allThrough && bypass == 0,
